@@ -506,6 +506,29 @@ def scanner_texts(maxlen):
     return out
 
 
+def wildcard_both_modes(rng, count):
+    """the same pattern compiled as `wildcard` and as `strict wildcard` one after the other in the same process
+    (both orders), run on values that differ from a match only in letter case: whatever a process remembers about
+    a pattern must not carry over from one operator to the other"""
+    out = []
+    words = [b"static", b"Example", b"COM", b"cdn", b"Img", b"x", b"Path", b"api", b"V2", b"www"]
+    for i in range(count):
+        n = rng.choice([3, 8, 15, 16, 17, 24, 32, 33, 64])
+        p = bytearray()
+        while len(p) < n:
+            p += rng.choice([b"*", b".", b"/", b"?", b"-"]) + rng.choice(words)
+        p = bytes(p[:n]).rstrip(b"\\")
+        exact = p.replace(b"*", rng.choice([b"", b"ab", b"Zz9"]))
+        vals = [exact, exact.upper(), exact.lower(), exact.swapcase(), exact + b"x", b"", p]
+        first = i % 2 == 0
+        src = quote_bytes(p)
+        out.append(wcase(first, None, QUOTED, src, vals))
+        out.append(wcase(not first, None, QUOTED, src, vals))
+        if i % 3 == 0:
+            out.append(wcase(first, None, QUOTED, src, vals))
+    return out
+
+
 def scanner_texts_wide(rng, count):
     """quoted regex literals as SOURCE TEXT whose characters take 1 to 4 bytes: whatever the scanner does with an
     escaped quote, a class or a backslash, every other character must reach the engine byte for byte"""
@@ -527,6 +550,7 @@ def gen(rng, tier):
     out += wildcard_source_texts(5 if thorough else 4)
     out += wildcard_random(rng, 20000 if thorough else 1500)
     out += scanner_texts(6 if thorough else 5)
+    out += wildcard_both_modes(rng, 3000 if thorough else 300)
     out += scanner_texts_wide(rng, 20000 if thorough else 1500)
     out += regex_from_ast(rng, 100000 if thorough else 5000)
     out += regex_malformed(rng, 20000 if thorough else 1200)
